@@ -96,6 +96,10 @@ class InternalCompiler(Compiler):
 
         # 3. If expr is already been computed, return its index
         elif expr in self.expqmap:
+            if dest is not None and dest != self.expqmap[expr]:
+                # the caller accumulates into dest: xor the computed value in
+                qc.cx(self.expqmap[expr], dest)
+                return dest
             return self.expqmap[expr]
 
         # 4. Special mappings section
